@@ -12,7 +12,7 @@ def run(R, ctx):
     extra = execgen_zset.programs(rng, 250 if quick else 4000) + execgen_zset.deep_programs(rng, 60 if quick else 800)
     execsuite.run_exec_suite(
         R, ctx, name="sorted-sets",
-        gens=[(1, execgen_zset.zset_cmd)],
+        gens=[(1, families.zset_reread(execgen_zset.zset_cmd))],
         nprog=(100, 1500), corpus="exec_c12", keys=execgen_zset.ZKEYS, maxlen=60, extra_lines=extra + families.refused_changes_nothing(rng, 120 if quick else 2000),
         what="sorted-set commands (ZADD with every NX/XX/GT/LT/CH/INCR combination incl. invalid ones, several pairs, duplicate members, "
              "ties, negatives, signed zero, infinities, huge and tiny floats, invalid floats; ZREM; ZRANGE by index with negative and "
